@@ -164,6 +164,30 @@ func LateSeriesRecords(recs []Rec) int {
 	return late
 }
 
+// RefClashes returns the series refs that carry more than one label set in the records
+// (ref → the distinct label sets, in order of appearance).
+func RefClashes(recs []Rec) map[uint64][]string {
+	seen := map[uint64][]string{}
+	for _, r := range recs {
+		for _, s := range r.Series {
+			k := s.Labels.String()
+			dup := false
+			for _, o := range seen[uint64(s.Ref)] {
+				dup = dup || o == k
+			}
+			if !dup {
+				seen[uint64(s.Ref)] = append(seen[uint64(s.Ref)], k)
+			}
+		}
+	}
+	for ref, ls := range seen {
+		if len(ls) < 2 {
+			delete(seen, ref)
+		}
+	}
+	return seen
+}
+
 // HeadChunk is one chunk found in the head chunk files (chunks_head).
 type HeadChunk struct {
 	Ref        uint64
